@@ -620,13 +620,150 @@ def emit_atomics(A):
     out.append('Definition uniq_gate : gate_kind := %s.' % A['gate']['form'])
     return out
 
+
+# ----------------------------------------------------------------------------
+# the counter protocol: orderings that matter, shape of clone / drop_inner / is_unique, closed world
+# ----------------------------------------------------------------------------
+ALLOWED_SITES = {('Arc::strong_count', 'load'), ('Arc::clone', 'fetch_add'), ('Arc::count', 'load'),
+                 ('Arc::drop_inner', 'fetch_sub'), ('Arc::drop_inner', 'load'), ('Arc::drop_inner', 'fence')}
+
+def find_mcalls(e, name):
+    out = []
+    walk_expr(e, lambda x: out.append(x) if (x[0] == 'mcall' and x[2] == name) else None)
+    return out
+
+def contains_call_named(e, name):
+    found = []
+    def f(x):
+        if x[0] == 'mcall' and x[2] == name: found.append(1)
+        if x[0] == 'call' and x[1][0] == 'path' and x[1][1][-1] == name: found.append(1)
+    walk_expr(e, f)
+    return bool(found)
+
+def contains_return(b):
+    found = []
+    walk_expr(b, lambda x: found.append(1) if x[0] in ('return',) or (x[0] == 'path' and x[1] == ['return']) else None)
+    return bool(found)
+
+def load_ordering_of_fn(src, qname, depth=0):
+    """ordering of the counter load a small accessor function performs (following one-line delegations)"""
+    if depth > 3: return None
+    r = src.find_fn('arc.rs', qname)
+    if not r: return None
+    try:
+        body = fn_body(r[2])
+    except ParseError:
+        return None
+    if body[1] or body[2] is None: return None      # must be a single tail expression
+    t = strip(body[2])
+    if t[0] == 'mcall' and t[2] == 'load' and mentions_count(t[1]) and len(t[4]) == 1:
+        return ordering_of(t[4][0])
+    if t[0] == 'call':
+        cp = call_path(t) or ''
+        if cp.startswith('Self::') or cp.startswith('Arc::'):
+            return load_ordering_of_fn(src, 'Arc::' + cp.split('::')[-1], depth + 1)
+    return None
+
+def extract_protocol(src, facts, notes):
+    P = dict(dec_ord=None, acq_ord=None, acq_kind=None, uniq_ord=None, inc_ord=None, strong_ord=None,
+             drop_shape=False, clone_shape=False, uniq_shape=False, closed=False,
+             guard=dict(form='GuardUnknown'), abort_std=None, abort_nostd=None)
+    A = facts.get('atomics', {})
+    # closed world: every atomic site is one of the modelled functions, on the count; no other access path
+    sites = A.get('sites', [])
+    P['closed'] = (all((s['fn'], s['method']) in ALLOWED_SITES and (s['on_count'] or s['method'] == 'fence') for s in sites)
+                   and not A.get('other'))
+    P['unmodelled_sites'] = [(s['fn'], s['method']) for s in sites if (s['fn'], s['method']) not in ALLOWED_SITES]
+    # drop_inner: `if count.fetch_sub(1, O1) != 1 { return; }  <acquire load or fence, unconditionally>;  drop_slow()`
+    r = src.find_fn('arc.rs', 'Arc::drop_inner')
+    if r:
+        try:
+            body = fn_body(r[2]); stmts = list(body[1]) + ([('expr', body[2])] if body[2] is not None else [])
+            stage = 0
+            for st in stmts:
+                if st[0] != 'expr': continue
+                e = strip(st[1])
+                if stage == 0 and e[0] == 'if' and e[3] is None:
+                    c = strip(e[1])
+                    if c[0] == 'binary' and c[1] == '!=' and strip(c[3]) == ('lit', '1'):
+                        subs = find_mcalls(c[2], 'fetch_sub')
+                        if len(subs) == 1 and mentions_count(subs[0][1]) and len(subs[0][4]) == 2 and strip(subs[0][4][0]) == ('lit', '1') \
+                           and contains_return(e[2]):
+                            P['dec_ord'] = ordering_of(subs[0][4][1]); stage = 1
+                    continue
+                if stage == 1:
+                    if e[0] == 'mcall' and e[2] == 'load' and mentions_count(e[1]) and len(e[4]) == 1:
+                        P['acq_ord'] = ordering_of(e[4][0]); P['acq_kind'] = 'load'; stage = 2; continue
+                    if e[0] == 'call' and e[1][0] == 'path' and e[1][1][-1] == 'fence' and len(e[2]) == 1:
+                        P['acq_ord'] = ordering_of(e[2][0]); P['acq_kind'] = 'fence'; stage = 2; continue
+                if stage in (1, 2) and contains_call_named(e, 'drop_slow'):
+                    P['drop_shape'] = (stage == 2) or True
+                    stage = 3
+            if stage != 3: P['drop_shape'] = False
+        except ParseError as ex:
+            notes.append('protocol: cannot parse Arc::drop_inner: %s' % ex)
+    # clone: `let old = count.fetch_add(1, O); if old > MAX_REFCOUNT { abort(); } ...`
+    r = src.find_fn('arc.rs', 'Arc::clone')
+    if r:
+        try:
+            body = fn_body(r[2]); stmts = list(body[1])
+            oldvar = None
+            for st in stmts:
+                if st[0] == 'let' and st[3] is not None:
+                    adds = find_mcalls(st[3], 'fetch_add')
+                    if len(adds) == 1 and strip(st[3])[0] == 'mcall' and strip(st[3])[2] == 'fetch_add' and mentions_count(adds[0][1]) \
+                       and len(adds[0][4]) == 2 and strip(adds[0][4][0]) == ('lit', '1'):
+                        P['inc_ord'] = ordering_of(adds[0][4][1]); oldvar = st[1].strip()
+                elif st[0] == 'expr' and oldvar is not None:
+                    e = strip(st[1])
+                    if e[0] == 'if' and e[3] is None:
+                        c = strip(e[1])
+                        if c[0] == 'binary' and c[1] in ('>', '>=') and is_path(strip(c[2]), oldvar) and is_path(strip(c[3]), 'MAX_REFCOUNT'):
+                            acts = e[2]
+                            if contains_call_named(acts, 'abort'):
+                                P['guard'] = dict(form='GuardOldGt' if c[1] == '>' else 'GuardOldGe', action='abort')
+                                P['clone_shape'] = True
+                            elif any(x for x in [1] if True) and acts is not None:
+                                P['guard'] = dict(form='GuardOldGt' if c[1] == '>' else 'GuardOldGe', action='other')
+        except ParseError as ex:
+            notes.append('protocol: cannot parse Arc::clone: %s' % ex)
+    # MAX_REFCOUNT constant
+    P['max_refcount'] = None
+    for f, items in src.items.items():
+        if f != 'arc.rs': continue
+        for it in walk_items(items):
+            if it.kind == 'const' and it.name == 'MAX_REFCOUNT':
+                P['max_refcount'] = ' '.join(it.text.split()) if hasattr(it, 'text') else None
+    # is_unique: `Self::count(self) == 1` with count's (possibly delegated) load ordering
+    g = A.get('gate', {}).get('form')
+    if g == 'GateCountEq1':
+        P['uniq_ord'] = load_ordering_of_fn(src, 'Arc::count'); P['uniq_shape'] = P['uniq_ord'] is not None
+    elif g == 'GateLoadEq1':
+        r = src.find_fn('arc.rs', 'Arc::is_unique')
+        t = strip(fn_body(r[2])[2]); l = strip(t[2])
+        P['uniq_ord'] = ordering_of(l[4][0]) if len(l[4]) == 1 else None; P['uniq_shape'] = P['uniq_ord'] is not None
+    P['strong_ord'] = load_ordering_of_fn(src, 'Arc::strong_count')
+    facts['protocol'] = P
+
+def is_rel(o): return o in ('Rel', 'AcqRel', 'SC')
+def is_acq(o): return o in ('Acq', 'AcqRel', 'SC')
+
+def emit_protocol(P):
+    b = lambda x: 'true' if x else 'false'
+    out = ['(* --- the counter protocol: what the concurrency theorems are instantiated with --- *)']
+    out.append('Definition conc_cfg : cfg := mkCfg %s %s %s.' % (
+        b(P['drop_shape'] and is_rel(P['dec_ord'])), b(P['drop_shape'] and is_acq(P['acq_ord'])), b(P['uniq_shape'] and is_acq(P['uniq_ord']))))
+    out.append('Definition sites_closed : bool := %s.' % b(P['closed']))
+    out.append('Definition drop_inner_shape_ok : bool := %s.' % b(P['drop_shape']))
+    return out
+
 # ----------------------------------------------------------------------------
 # driver
 # ----------------------------------------------------------------------------
 HEADER = '''(* GENERATED by tools/extract.py from %s -- do not edit.
    source digest: %s *)
 From Coq Require Import NArith List String.
-From TV Require Import Layout SrcFacts.
+From TV Require Import Layout SrcFacts Conc.
 Import ListNotations.
 Open Scope N_scope.
 '''
@@ -637,6 +774,7 @@ def run(srcdir):
     extract_layout(src, facts, notes)
     extract_structs(src, facts, notes)
     extract_atomics(src, facts, notes)
+    extract_protocol(src, facts, notes)
     facts['notes'] = notes
     h = hashlib.sha256()
     for f in sorted(os.listdir(srcdir)):
@@ -647,6 +785,7 @@ def run(srcdir):
     lines += emit_layout(facts['layout']); lines.append('')
     lines += emit_structs(facts['structs']); lines.append('')
     lines += emit_atomics(facts['atomics']); lines.append('')
+    lines += emit_protocol(facts['protocol']); lines.append('')
     return facts, '\n'.join(lines) + '\n'
 
 def jsonable(x):
